@@ -30,4 +30,116 @@ CHECKS['C03'] = {
     'assumptions': ['one outstanding wait per timer', 'order between a wait that was already due when started and other ready handlers is left open by the property and not checked'],
 }
 
+CHECKS['C09'] = {
+    'jobs': {'quick': [J('c09_queue.cpp', ['MODE=0', 'HOPS=1', 'NPKT=2'], wall=250, markers=(1, 3)),
+                       J('c09_queue.cpp', ['MODE=0', 'HOPS=1', 'NPKT=3', 'LATC'], wall=250, markers=(1, 3)),
+                       J('c09_queue.cpp', ['MODE=0', 'HOPS=2', 'NPKT=2', 'LATC'], wall=250, markers=(1, 3)),
+                       J('c09_queue.cpp', ['MODE=2', 'HOPS=1', 'NPKT=1', 'NCHUNK=2'], wall=250, markers=(1,), opts={'solver_timeout_ms': 120000})],
+             'thorough': [J('c09_queue.cpp', ['MODE=0', 'HOPS=1', 'NPKT=4'], wall=1500, markers=(1, 3)),
+                          J('c09_queue.cpp', ['MODE=0', 'HOPS=2', 'NPKT=3'], wall=1500, markers=(1, 3)),
+                          J('c09_queue.cpp', ['MODE=2', 'HOPS=1', 'NPKT=1', 'NCHUNK=47'], wall=1500, markers=(1,), opts={'solver_timeout_ms': 300000})]},
+    'opts': {'check_nsw': True},
+    'bounds': {'quick': 'scheduling: 1 queue x 2 packets with symbolic latency (0..10 s) and capacity; 1 queue x 3 packets and 2 queues in series x 2 packets with latency from {0,1ms,3s} and capacity {0,2100}; bandwidth from {0,56k,1e9} B/s; packet sizes 1500/20/548 by position; '
+                        'latency symbolic 0..10 s; capacity 0 or symbolic 1..100000; packet size from {20,548,1500}(+5 payload bytes on odd packets); arrival gaps 0 or symbolic 1 ns..2 s. '
+                        'rounding kernel: one packet of symbolic size 20..3019 bytes through the real floating-point serialisation-time computation for each of the 7 bandwidths',
+               'thorough': 'scheduling: 1 queue x 4 packets, 2 queues x 3 packets; rounding kernel: sizes 20..70519'},
+    'outside': ['bandwidth values outside the alphabet (z3 floating point with a symbolic bandwidth is out of reach: 978 s for 19 paths)', 'more packets / hops',
+                'symbolic packet sizes in multi-packet schedules (the FP product in the path condition makes z3 time out); covered by the one-packet kernel instead',
+                'end-to-end UDP/TCP delay corollaries are checked only as per-hop sums'],
+    'assumptions': ['packets injected directly into the first queue by the harness'],
+}
+CHECKS['C10'] = {
+    'jobs': {'quick': [J('c09_queue.cpp', ['MODE=1', 'HOPS=1', 'NPKT=3'], wall=250, markers=(1, 2, 3)),
+                       J('c09_queue.cpp', ['MODE=1', 'HOPS=2', 'NPKT=2'], wall=250, markers=(1, 2, 3)),
+                       J('c09_queue.cpp', ['MODE=3', 'HOPS=1', 'NPKT=3'], wall=250, markers=(1, 2, 3))],
+             'thorough': [J('c09_queue.cpp', ['MODE=1', 'HOPS=1', 'NPKT=4'], wall=1500, markers=(1, 2, 3)),
+                          J('c09_queue.cpp', ['MODE=1', 'HOPS=2', 'NPKT=3'], wall=1500, markers=(1, 2, 3)),
+                          J('c09_queue.cpp', ['MODE=3', 'HOPS=1', 'NPKT=4'], wall=1500, markers=(1, 2, 3)),
+                          J('c09_queue.cpp', ['MODE=3', 'HOPS=2', 'NPKT=3'], wall=1500, markers=(1, 2, 3))]},
+    'bounds': {'quick': 'symbolic sizes: 1 queue x 3 packets, 2 queues x 2 packets, capacity symbolic 0..5000 bytes, infinitely fast link with latency 0 or symbolic, packet type symbolic over all 5 types, '
+                        'overhead symbolic 20..1500, bursts (gap 0) and spaced arrivals, one packet without a drop callback; rate-limited link {1k,56k B/s}: 1 queue x 3 packets with sizes from {20,548,1500}',
+               'thorough': '4 packets on 1 queue, 3 packets over 2 queues, in both regimes'},
+    'outside': ['more packets than the bound (the byte account over long histories is covered only up to the bound)',
+                'a packet re-entering the same queue from inside its own forwarding call (re-entrant arrival)'],
+    'assumptions': [],
+}
+
+def c15_jobs(tier):
+    nmax = 8 if tier == 'quick' else 10
+    jobs = [J('c15_parser.cpp', ['MODE=0', 'LEN=%d' % n], wall=(200 if tier == 'quick' else 1500), markers=((1, 3) if n < 8 else (1, 2, 3))) for n in range(0, nmax + 1)]
+    jobs.append(J('c15_parser.cpp', ['MODE=1', 'PART=0', 'TMAX=%d' % (4 if tier == 'quick' else 6)], wall=(200 if tier == 'quick' else 1500), markers=(1, 2, 3)))
+    jobs.append(J('c15_parser.cpp', ['MODE=1', 'PART=1', 'TMAX=0'], wall=(200 if tier == 'quick' else 1500), markers=(1, 2, 3)))
+    jobs.append(J('c15_parser.cpp', ['MODE=2', 'LEN=%d' % (4 if tier == 'quick' else 6)], wall=(200 if tier == 'quick' else 1500), markers=(1, 2, 3, 4)))
+    return jobs
+CHECKS['C15'] = {
+    'jobs': c15_jobs,
+    'bounds': {'quick': 'totality/bounds: every byte string of every length 0..8 in an exactly sized heap block, parse_request(buf,len) and find_request_len; '
+                        'round trip: methods CONNECT / 1 / 3 symbolic letters, targets of 0..4 symbolic bytes over {/ . ? a b %}, 0..2 header lines with 1-2 symbolic name bytes, '
+                        '0-2 symbolic value bytes and whitespace variants; helpers trim/lower_case/normalize on symbolic strings up to 4 bytes',
+               'thorough': 'byte strings up to length 10, targets up to 6 bytes, helper strings up to 6 bytes'},
+    'outside': ['inputs longer than the bound', 'header values with embedded NUL (trim treats NUL like whitespace; not part of a well-formed request)'],
+    'assumptions': ['trim(): no embedded NUL bytes'],
+}
+
+CHECKS['C11'] = {
+    'jobs': {'quick': [J('c11_registry.cpp', ['K=2', 'OBJSET=0'], wall=280, markers=(1, 2))],
+             'thorough': [J('c11_registry.cpp', ['K=3', 'OBJSET=1'], wall=1700, markers=(1, 3)), J('c11_registry.cpp', ['K=3', 'OBJSET=2'], wall=1700, markers=(1, 2))]},
+    'bounds': {'quick': 'every sequence of K=2 operations from {open v4/v6, bind (8 endpoint forms: explicit, port 0, privileged, second address, wildcard v4/v6, foreign, v6), close, destroy+recreate, '
+                        'move-construct, listen} over 2 TCP sockets, 1 acceptor and 2 UDP sockets of a node with two IPv4 and one IPv6 address; ephemeral counter at 2000 or about to wrap; '
+                        'then datagram probes to 6 endpoints and a connect probe from a second node, accepted socket closed and acceptor re-probed',
+               'thorough': 'K=3 over {TCP socket, acceptor} and over {2 UDP sockets}'},
+    'outside': ['bind on an already bound socket (unsupported use)', 'longer histories'],
+    'assumptions': ['bind is only called on sockets that are not bound'],
+}
+
+CHECKS['C08'] = {
+    'jobs': {'quick': [J('c08_udp.cpp', ['SCEN=0', 'NDG=2'], wall=250, markers=(1, 2)), J('c08_udp.cpp', ['SCEN=1', 'NDG=2'], wall=250, markers=(1, 2, 3)),
+                       J('c08_udp.cpp', ['SCEN=2'], wall=100, markers=(1,))],
+             'thorough': [J('c08_udp.cpp', ['SCEN=0', 'NDG=3'], wall=1700, markers=(1, 2)), J('c08_udp.cpp', ['SCEN=1', 'NDG=3'], wall=1200, markers=(1, 2, 3)),
+                          J('c08_udp.cpp', ['SCEN=2'], wall=100, markers=(1,))]},
+    'bounds': {'quick': 'SCEN0: 2 datagrams of 1..4 symbolic bytes, 1- or 2-buffer send layouts, burst/spaced, reader style async_receive_from / async_receive / wait+receive_from, receive '
+                        'buffers 8 / 1 / 1+2 bytes, reader armed before or after arrival, optional symbolic-latency hop. SCEN1: 1-2 datagrams in flight or queued unread while the destination socket is '
+                        'closed / replaced by another socket / re-opened and re-bound / destroyed, then 1-2 more datagrams. SCEN2: empty, 65536, 65537, 65535+1 and 65535-byte datagrams; would_block with a 1000/3000/4000 byte send buffer',
+               'thorough': '3 datagrams in SCEN0/1'},
+    'outside': ['more datagrams', 'receive buffer full (256 kB) drops', 'NAT views of the sender (C13)', 'tail drop in queues (C10)'],
+    'assumptions': ['white-box witness: udp::socket::m_queue_size == sum of queued payload sizes after every read'],
+}
+
+CHECKS['C14'] = {
+    'jobs': {'quick': [J('c14_resolver.cpp', ['K=3'], wall=280, markers=(1, 2))],
+             'thorough': [J('c14_resolver.cpp', ['K=4'], wall=1700, markers=(1, 2))]},
+    'bounds': {'quick': 'K=3 operations from {resolve host name (3 names; latency 0/1us or symbolic 1ns..1s; 1-2 addresses or host_not_found), resolve IPv4 literal, resolve IPv6 literal, cancel(), '
+                        'cancel() from inside the next completion handler} issued at symbolic instants (gap 0 or 1ns..300ms) on a TCP or a UDP resolver; services 80/0/65535',
+               'thorough': 'K=4'},
+    'outside': ['longer sequences', 'moved resolvers'],
+    'assumptions': [],
+}
+
+CHECKS['C05'] = {
+    'jobs': {'quick': [J('c05_tcp.cpp', ['LEN=5', 'LOSS=1', 'DROPS=2', 'DIR=0'], wall=280, markers=(1, 2, 3, 5)),
+                       J('c05_tcp.cpp', ['LEN=4', 'LOSS=0', 'DIR=1'], wall=120, markers=(1, 2, 5)),
+                       J('c05_tcp.cpp', ['LEN=4', 'LOSS=0', 'DIR=0', 'REUSE=1'], wall=120, markers=(1, 4))],
+             'thorough': [J('c05_tcp.cpp', ['LEN=8', 'LOSS=1', 'DROPS=4', 'DIR=0'], wall=1700, markers=(1, 2, 3, 5)),
+                          J('c05_tcp.cpp', ['LEN=6', 'LOSS=1', 'DROPS=3', 'DIR=1', 'MTU=2000'], wall=900, markers=(1, 2, 5)),
+                          J('c05_tcp.cpp', ['LEN=6', 'LOSS=1', 'DROPS=2', 'DIR=0', 'REUSE=1'], wall=900, markers=(1, 4))]},
+    'bounds': {'quick': 'one connection, 5 symbolic payload bytes, path MTU 3 (2-3 segments), write chunk in {1, MTU, MTU+1, all}, 1- or 2-buffer gather writes, read buffer in {1,2,64}, '
+                        'async_read_some or wait+read_some, writer closes or not; the first 2 payload segments are each passed / dropped / held back (reordered) by a hop on the route (9 fault patterns); '
+                        'reverse direction lossless; accepted socket object closed with unread data and reused for a second connection',
+               'thorough': '8 bytes with the first 4 segments faulted (81 patterns), reverse direction with faults, reuse with faults'},
+    'outside': ['longer streams, more than 4 faulted segments', 'routes without any queue hop between the nodes (handshake would complete inside async_connect; unsupported by the library)',
+                'simultaneous payload in both directions'],
+    'assumptions': ['every route between two nodes contains at least one sim::queue (a zero-latency, infinitely fast one here)'],
+}
+CHECKS['C06'] = {
+    'jobs': {'quick': [J('c05_tcp.cpp', ['LEN=6', 'LOSS=2', 'PROGRESS=1', 'DIR=0'], wall=280, markers=(1, 2)),
+                       J('c05_tcp.cpp', ['LEN=5', 'LOSS=0', 'PROGRESS=1', 'DIR=1'], wall=120, markers=(1, 2))],
+             'thorough': [J('c05_tcp.cpp', ['LEN=9', 'LOSS=2', 'PROGRESS=1', 'DIR=0'], wall=1700, markers=(1, 2)),
+                          J('c05_tcp.cpp', ['LEN=9', 'LOSS=2', 'PROGRESS=1', 'DIR=1', 'MTU=3'], wall=1700, markers=(1, 2))]},
+    'bounds': {'quick': 'one connection, 6 payload bytes in 2-6 segments (MTU 3), sender-side queue with capacity {1 segment, 2 segments, unlimited}, bandwidth {infinite, 5 kB/s}, latency {0, 1 ms}, '
+                        'optional receiver-side queue (capacity 1-2 segments), write chunk / layout / read size / read style symbolic; progress asserted at quiescence (run() returning)',
+               'thorough': '9 bytes, both directions'},
+    'outside': ['transfers longer than the bound', 'bidirectional simultaneous payload over finite queues (excluded by the property itself)'],
+    'assumptions': ['liveness is bounded: quiescence of the simulation is the end of time', 'white-box witnesses: m_incoming_queue, m_outgoing_packets'],
+}
+
 NOT_APPLICABLE = {}
